@@ -17,8 +17,29 @@ package main
 //   oracle c18auth
 //   cfg users=<n> jail=<ms>
 //   user <k> <name> <password>                      (quoted when empty or not an atom)
+//   userid <k> <Go-quoted string>                   (optional: the application-chosen user id handed to Server.LoadUser - it becomes
+//                                                    the name of the user's database file and store directory; without the line the
+//                                                    user is created by Server.AddUser, which draws a UUID)
 //   C<conn> <PayloadType> <wire command | LOGIN user pass | APPEND mailbox marker>
 //   ADMIN remove <k> | ADMIN add <k> <password>     (Server.RemoveUser / Server.LoadUser with the same user id and a fresh connector)
+//   ADMIN removefiles <k>                           (Server.RemoveUser(removeFiles=true): the user's database and store are deleted; an
+//                                                    `ADMIN add` after it finds a new database and builds the user's marker fixture again)
+//   ADMIN restart                                   (every client connection is closed; every user on the server is removed - files
+//                                                    stay - and loaded again under its id with a fresh connector: what a restart of
+//                                                    the embedding application does; nobody's view may change)
+//
+// User ids are inputs of the isolation clause ("every mix of users on one server"): besides server-drawn UUIDs the generator
+// uses ids that contain URL / DSN / path metacharacters and are equal up to such a character, ids that are prefixes of one
+// another, ids that differ in letter case only (a case-insensitive file system is out of scope: the check runs on Linux),
+// ids that are percent-encodings of one another, ids with leading dots, non-ASCII ids and very long ids.  Ids that gluon hands
+// to the file system unvalidated and that name something else than one new directory entry (`..`, `.`, the empty id, ids with
+// `/`) and ids with glob metacharacters (`*`, `[`, `\`) are generated only with -hostile-ids.
+//
+// Observers: every user has one extra session of the harness (logged in before the first step with the user's valid pair,
+// never selected, not part of the judged trace) that reads the user's view - LIST "" "*" and STATUS (MESSAGES UIDNEXT
+// UIDVALIDITY UNSEEN) of every listed mailbox - after every step.  The judge gets, per step, the users whose view changed
+// in that step and the (observer, foreign marker) pairs: a view may change only in a step of a session authenticated as that
+// user (or an ADMIN step on that user), and no observer may ever list a marker of another user.
 //
 // Credentials: user names of one server may be prefixes of one another, differ in letter case only, or be built so
 // that two valid pairs collide when name and password are joined (with or without a separator); besides the plain wrong
@@ -60,6 +81,7 @@ type authUser struct {
 	ID         string
 	Conn       *connector.Dummy
 	Removed    bool
+	NoFiles    bool // removed with removeFiles=true: the next LoadUser finds a new database, the fixture is built again
 }
 
 type authSys struct {
@@ -70,22 +92,29 @@ type authSys struct {
 	ctx    context.Context
 	cancel context.CancelFunc
 	panics *panicRecorder
+	// observers[k]: the harness' own session of user k (nil: none), lastView[k]: what it read last
+	observers []*Client
+	lastView  []string
+	fresh     []bool // observer k has not read a view yet that a change could be measured against
+	notes     []string // informational (API results, what is on disk); never a verdict
+	causes    []string // what the harness saw on disk that explains a later verdict (classification only)
 }
 
 func authAllFlags() imap.FlagSet {
 	return imap.NewFlagSet(imap.FlagSeen, imap.FlagFlagged, imap.FlagDeleted, imap.FlagAnswered, imap.FlagDraft)
 }
 
-// removeUser: Server.RemoveUser (files stay); blocks until the user's sessions have released their states.
-func (a *authSys) removeUser(k int) error {
+// removeUser: Server.RemoveUser (files stay unless asked); blocks until the user's sessions have released their states.
+func (a *authSys) removeUser(k int, files bool) error {
 	u := a.users[k]
 	if u.Removed {
 		return fmt.Errorf("user %d is not on the server", k)
 	}
+	a.closeObserver(k)
 	ctx, c := context.WithTimeout(a.ctx, 20*time.Second)
 	defer c()
 	done := make(chan error, 1)
-	go func() { done <- a.srv.RemoveUser(ctx, u.ID, false) }()
+	go func() { done <- a.srv.RemoveUser(ctx, u.ID, files) }()
 	select {
 	case err := <-done:
 		if err != nil {
@@ -95,6 +124,10 @@ func (a *authSys) removeUser(k int) error {
 		return fmt.Errorf("RemoveUser did not return within 25s")
 	}
 	u.Removed = true
+	a.fresh[k] = true // the next observer of this user starts from what it reads first
+	if files {
+		u.NoFiles = true
+	}
 	return nil
 }
 
@@ -107,10 +140,25 @@ func (a *authSys) addUser(k int, pass string) error {
 	all := authAllFlags()
 	conn := connector.NewDummy([]string{u.Name}, []byte(pass), time.Hour, all, all, imap.NewFlagSet())
 	conn.SetUpdatesAllowedToFail(true)
-	if _, err := a.srv.LoadUser(a.ctx, conn, u.ID, []byte("passphrase-"+u.Name)); err != nil {
+	isNew, err := a.srv.LoadUser(a.ctx, conn, u.ID, []byte("passphrase-"+u.Name))
+	if err != nil {
 		return err
 	}
 	u.Conn, u.Pass, u.Removed = conn, pass, false
+	if isNew != u.NoFiles {
+		a.notes = append(a.notes, fmt.Sprintf("LoadUser(%q) of user %d reported isNew=%v, files removed before=%v", u.ID, k, isNew, u.NoFiles))
+	}
+	if u.NoFiles {
+		// the user's files were deleted: it starts again with its marker fixture (never for a user that was removed
+		// without its files - its data has to be there still)
+		u.NoFiles = false
+		if err := conn.Sync(a.ctx); err != nil {
+			return err
+		}
+		if err := a.populate(k); err != nil {
+			return err
+		}
+	}
 	return nil
 }
 
@@ -122,15 +170,51 @@ func authStable(k int) []string {
 	return []string{"INBOX", authMarker(k) + "box", authMarker(k) + "arc"}
 }
 
-func newAuthSys(names, passes []string, jail time.Duration) (*authSys, error) {
+// populate: distinguishable content of user k through its connector - mailboxes and subjects carry the user's marker
+func (a *authSys) populate(k int) error {
+	conn := a.users[k].Conn
+	all := authAllFlags()
+	mk := authMarker(k)
+	for _, mb := range authStable(k)[1:] {
+		if err := conn.MailboxCreated(imap.Mailbox{ID: imap.MailboxID(mb), Name: []string{mb}, Flags: all, PermanentFlags: all, Attributes: imap.NewFlagSet()}); err != nil {
+			return err
+		}
+	}
+	n := 0
+	for _, mb := range authStable(k) {
+		cnt := 2
+		if strings.HasSuffix(mb, "arc") {
+			cnt = 1
+		}
+		for j := 0; j < cnt; j++ {
+			n++
+			marker := fmt.Sprintf("%ssubj%d", mk, n)
+			fl := imap.NewFlagSet()
+			if j == 1 {
+				fl = imap.NewFlagSet(imap.FlagSeen)
+			}
+			if err := conn.MessageCreated(imap.Message{ID: imap.MessageID(marker), Flags: fl, Date: time.Unix(1136214245, 0).UTC()},
+				SimpleMessage(marker, "body of "+marker), []imap.MailboxID{mboxID(mb)}); err != nil {
+				return err
+			}
+		}
+	}
+	conn.Flush()
+	return nil
+}
+
+// ids: nil or "" entries = the server draws the id (Server.AddUser); else the application-chosen id (Server.LoadUser)
+func newAuthSys(names, passes, ids []string, jail time.Duration) (*authSys, error) {
 	dir, err := os.MkdirTemp("", "vh-auth-")
 	if err != nil {
 		return nil, err
 	}
 	rec := &panicRecorder{}
+	// the server's directories are two levels below the temporary directory: an id that climbs out of them stays inside it
+	root := filepath.Join(dir, "srv", "data")
 	srv, err := gluon.New(
-		gluon.WithDataDir(filepath.Join(dir, "store")),
-		gluon.WithDatabaseDir(filepath.Join(dir, "db")),
+		gluon.WithDataDir(filepath.Join(root, "store")),
+		gluon.WithDatabaseDir(filepath.Join(root, "db")),
 		gluon.WithDelimiter("/"),
 		gluon.WithPanicHandler(rec),
 		gluon.WithLoginJailTime(jail),
@@ -150,42 +234,35 @@ func newAuthSys(names, passes []string, jail time.Duration) (*authSys, error) {
 		// every user gets its own connector (own credentials) => own database and store in the backend
 		conn := connector.NewDummy([]string{names[k]}, []byte(passes[k]), time.Hour, all, all, imap.NewFlagSet())
 		conn.SetUpdatesAllowedToFail(true)
-		id, err := srv.AddUser(ctx, conn, []byte("passphrase-"+names[k]))
-		if err != nil {
-			return fail(err)
+		var id string
+		if k < len(ids) && ids[k] != "" {
+			id = ids[k]
+			isNew, err := srv.LoadUser(ctx, conn, id, []byte("passphrase-"+names[k]))
+			if err != nil {
+				return fail(fmt.Errorf("LoadUser(%q): %w", id, err))
+			}
+			if !isNew {
+				a.notes = append(a.notes, fmt.Sprintf("LoadUser(%q) of user %d on an empty directory reported an existing database (isNew=false)", id, k))
+			}
+		} else {
+			id, err = srv.AddUser(ctx, conn, []byte("passphrase-"+names[k]))
+			if err != nil {
+				return fail(err)
+			}
 		}
 		if err := conn.Sync(ctx); err != nil {
 			return fail(err)
 		}
-		u := &authUser{Name: names[k], Pass: passes[k], ID: id, Conn: conn}
-		a.users = append(a.users, u)
-		// distinguishable content: mailboxes and subjects carry the user's marker
-		mk := authMarker(k)
-		for _, mb := range authStable(k)[1:] {
-			if err := conn.MailboxCreated(imap.Mailbox{ID: imap.MailboxID(mb), Name: []string{mb}, Flags: all, PermanentFlags: all, Attributes: imap.NewFlagSet()}); err != nil {
-				return fail(err)
-			}
+		a.users = append(a.users, &authUser{Name: names[k], Pass: passes[k], ID: id, Conn: conn})
+		if err := a.populate(k); err != nil {
+			return fail(err)
 		}
-		n := 0
-		for _, mb := range authStable(k) {
-			cnt := 2
-			if strings.HasSuffix(mb, "arc") {
-				cnt = 1
-			}
-			for j := 0; j < cnt; j++ {
-				n++
-				marker := fmt.Sprintf("%ssubj%d", mk, n)
-				fl := imap.NewFlagSet()
-				if j == 1 {
-					fl = imap.NewFlagSet(imap.FlagSeen)
-				}
-				if err := conn.MessageCreated(imap.Message{ID: imap.MessageID(marker), Flags: fl, Date: time.Unix(1136214245, 0).UTC()},
-					SimpleMessage(marker, "body of "+marker), []imap.MailboxID{mboxID(mb)}); err != nil {
-					return fail(err)
-				}
-			}
-		}
-		conn.Flush()
+	}
+	a.observers = make([]*Client, len(names))
+	a.lastView = make([]string, len(names))
+	a.fresh = make([]bool, len(names))
+	for k := range a.fresh {
+		a.fresh[k] = true
 	}
 	ln, err := net.Listen("tcp", "127.0.0.1:0")
 	if err != nil {
@@ -202,7 +279,200 @@ func newAuthSys(names, passes []string, jail time.Duration) (*authSys, error) {
 	return a, nil
 }
 
+// disk: what is in the server's database and store directories (informational: names only, sorted), and whether every
+// user on the server has a database file and a store directory of its own name
+func (a *authSys) disk() (string, bool) {
+	root := filepath.Join(a.dir, "srv", "data")
+	var parts []string
+	for _, d := range []string{"db", "store"} {
+		ents, _ := os.ReadDir(filepath.Join(root, d))
+		var names []string
+		for _, e := range ents {
+			n := e.Name()
+			if e.IsDir() {
+				n += "/"
+			}
+			names = append(names, strconv.Quote(n))
+		}
+		sort.Strings(names)
+		parts = append(parts, d+"=["+strings.Join(names, " ")+"]")
+	}
+	var outside []string
+	_ = filepath.Walk(a.dir, func(p string, info os.FileInfo, err error) error {
+		if err != nil || p == a.dir {
+			return nil
+		}
+		rel, _ := filepath.Rel(a.dir, p)
+		if rel == "srv" || rel == filepath.Join("srv", "data") {
+			return nil
+		}
+		if strings.HasPrefix(rel, filepath.Join("srv", "data", "db")) || strings.HasPrefix(rel, filepath.Join("srv", "data", "store")) {
+			return filepath.SkipDir
+		}
+		outside = append(outside, strconv.Quote(rel))
+		if info.IsDir() {
+			return filepath.SkipDir
+		}
+		return nil
+	})
+	own := len(outside) == 0
+	if !own {
+		parts = append(parts, "outside-the-server-directories=["+strings.Join(outside, " ")+"]")
+	}
+	for _, u := range a.users {
+		if u.Removed {
+			continue
+		}
+		if st, err := os.Lstat(filepath.Join(root, "db", u.ID+".db")); err != nil || st.IsDir() {
+			own = false
+		}
+		if st, err := os.Lstat(filepath.Join(root, "store", u.ID)); err != nil || !st.IsDir() || u.ID == "." || u.ID == ".." {
+			own = false
+		}
+	}
+	return strings.Join(parts, " "), own
+}
+
+// hasFiles: user k's database file <id>.db / store directory <id> exist in the server's directories
+func (a *authSys) hasFiles(k int) (db, store bool) {
+	root := filepath.Join(a.dir, "srv", "data")
+	if st, err := os.Lstat(filepath.Join(root, "db", a.users[k].ID+".db")); err == nil && !st.IsDir() {
+		db = true
+	}
+	if st, err := os.Lstat(filepath.Join(root, "store", a.users[k].ID)); err == nil && st.IsDir() {
+		store = true
+	}
+	return
+}
+
+// ---- observers -----------------------------------------------------------------------------
+
+func (a *authSys) closeObserver(k int) {
+	if k < len(a.observers) && a.observers[k] != nil {
+		c := a.observers[k]
+		c.Timeout = 5 * time.Second
+		c.Cmd("LOGOUT")
+		c.Close()
+		a.observers[k] = nil
+	}
+}
+
+// openObserver: a session of the harness for user k, logged in with the user's valid pair.  Only called when the login
+// counter of the server is known not to be disturbed by it (before the first step; inside ADMIN restart, which the judge
+// is told about).
+func (a *authSys) openObserver(k int) bool {
+	a.closeObserver(k)
+	c, err := a.dial(fmt.Sprintf("obs%d", k))
+	if err != nil {
+		return false
+	}
+	u := a.users[k]
+	if rep := c.Cmd(authLoginArg(u.Name, u.Pass, true)); rep.Status != "OK" {
+		c.Close()
+		return false
+	}
+	a.observers[k] = c
+	return true
+}
+
+// view: what observer k reads now - the listing and the counters of every listed mailbox, canonicalised
+func (a *authSys) view(k int) string {
+	c := a.observers[k]
+	rep := c.Cmd(`LIST "" "*"`)
+	if rep.Status != "OK" {
+		return "list " + rep.Status + " " + rep.Tagged
+	}
+	var ls, names []string
+	for _, l := range rep.Untagged {
+		if m := reAuthList.FindStringSubmatch(l); m != nil {
+			attrs := strings.Fields(strings.ToLower(m[2]))
+			sort.Strings(attrs)
+			name := authUnquote(m[4])
+			ls = append(ls, fmt.Sprintf("list %s (%s)", name, strings.Join(attrs, " ")))
+			if !strings.Contains(strings.ToLower(m[2]), `\noselect`) {
+				names = append(names, name)
+			}
+		}
+	}
+	sort.Strings(ls)
+	sort.Strings(names)
+	for _, name := range names {
+		rep := c.Cmd(`STATUS "` + name + `" (MESSAGES UIDNEXT UIDVALIDITY UNSEEN)`)
+		st := "?"
+		for _, l := range rep.Untagged {
+			if m := reAuthStatus.FindStringSubmatch(l); m != nil {
+				st = m[1]
+			}
+		}
+		ls = append(ls, fmt.Sprintf("status %s %s %s", name, rep.Status, st))
+	}
+	return strings.Join(ls, "\n")
+}
+
+// observe: every observer reads its user's view.  chg = users whose view differs from what their observer read last,
+// leak = (observer, user) pairs: the observer's view holds a marker of that other user
+func (a *authSys) observe() (chg []int, leak [][2]int) {
+	for k, c := range a.observers {
+		if c == nil {
+			continue
+		}
+		v := a.view(k)
+		if v != a.lastView[k] && !a.fresh[k] {
+			chg = append(chg, k)
+		}
+		a.lastView[k], a.fresh[k] = v, false
+		seen := map[int]bool{}
+		for _, m := range reAuthMarker.FindAllStringSubmatch(v, -1) {
+			if x, _ := strconv.Atoi(m[1]); x != k && !seen[x] {
+				seen[x] = true
+				leak = append(leak, [2]int{k, x})
+			}
+		}
+	}
+	sort.Slice(leak, func(i, j int) bool { return leak[i][0]*10+leak[i][1] < leak[j][0]*10+leak[j][1] })
+	return chg, leak
+}
+
+// restart: what a restart of the embedding application does to the users - every client connection is gone (the caller
+// closes its own), every user on the server is removed (files stay) and loaded again under its id with a fresh
+// connector.  Observers come back by a LOGIN with the valid pair: n = how many of them were accepted.
+func (a *authSys) restart() (n int, err error) {
+	var present []int
+	for k, u := range a.users {
+		if !u.Removed {
+			present = append(present, k)
+		}
+	}
+	had := make([]bool, len(a.users))
+	for _, k := range present {
+		had[k] = a.observers[k] != nil && !a.fresh[k]
+		if e := a.removeUser(k, false); e != nil && err == nil {
+			err = fmt.Errorf("RemoveUser of user %d: %w", k, e)
+		}
+	}
+	for _, k := range present {
+		if a.users[k].Removed {
+			if e := a.addUser(k, a.users[k].Pass); e != nil && err == nil {
+				err = fmt.Errorf("LoadUser of user %d: %w", k, e)
+			}
+		}
+	}
+	for _, k := range present {
+		if !a.users[k].Removed && a.openObserver(k) {
+			n++
+			// the view an observer read before the restart is what the new observer's first view is compared with
+			a.fresh[k] = !had[k]
+		}
+	}
+	return n, err
+}
+
 func (a *authSys) Close() {
+	for _, c := range a.observers {
+		if c != nil {
+			c.Close()
+		}
+	}
 	ctx, c := context.WithTimeout(context.Background(), 20*time.Second)
 	defer c()
 	done := make(chan struct{})
@@ -343,8 +613,12 @@ func (s authStep) String() string {
 	switch s.Ty {
 	case "AdminRemove":
 		return "ADMIN remove " + s.Arg
+	case "AdminRemoveFiles":
+		return "ADMIN removefiles " + s.Arg
 	case "AdminAdd":
 		return "ADMIN add " + s.Arg
+	case "AdminRestart":
+		return "ADMIN restart"
 	}
 	if s.Arg == "" {
 		return fmt.Sprintf("C%d %s", s.Conn, s.Ty)
@@ -355,6 +629,12 @@ func (s authStep) String() string {
 func parseAuthStep(l string) (authStep, error) {
 	if strings.HasPrefix(l, "ADMIN remove ") {
 		return authStep{Conn: -1, Ty: "AdminRemove", Arg: strings.TrimSpace(l[len("ADMIN remove "):])}, nil
+	}
+	if strings.HasPrefix(l, "ADMIN removefiles ") {
+		return authStep{Conn: -1, Ty: "AdminRemoveFiles", Arg: strings.TrimSpace(l[len("ADMIN removefiles "):])}, nil
+	}
+	if strings.TrimSpace(l) == "ADMIN restart" {
+		return authStep{Conn: -1, Ty: "AdminRestart"}, nil
 	}
 	if strings.HasPrefix(l, "ADMIN add ") {
 		return authStep{Conn: -1, Ty: "AdminAdd", Arg: strings.TrimSpace(l[len("ADMIN add "):])}, nil
@@ -376,8 +656,13 @@ func parseAuthStep(l string) (authStep, error) {
 
 type authSeq struct {
 	Names, Passes []string
+	IDs           []string // nil, or per user the application-chosen id ("" = drawn by the server)
 	JailMS        int
 	Steps         []authStep
+}
+
+func (q *authSeq) withSteps(steps []authStep) *authSeq {
+	return &authSeq{Names: q.Names, Passes: q.Passes, IDs: q.IDs, JailMS: q.JailMS, Steps: steps}
 }
 
 func (q *authSeq) text() string {
@@ -385,6 +670,11 @@ func (q *authSeq) text() string {
 	fmt.Fprintf(&b, "oracle c18auth\ncfg users=%d jail=%d\n", len(q.Names), q.JailMS)
 	for k := range q.Names {
 		fmt.Fprintf(&b, "user %d %s %s\n", k, authWord(q.Names[k], false), authWord(q.Passes[k], false))
+	}
+	for k := range q.IDs {
+		if q.IDs[k] != "" {
+			fmt.Fprintf(&b, "userid %d %s\n", k, strconv.Quote(q.IDs[k]))
+		}
 	}
 	for _, s := range q.Steps {
 		b.WriteString(s.String() + "\n")
@@ -397,6 +687,24 @@ func parseAuthSeq(text string) (*authSeq, error) {
 	for i, l := range strings.Split(text, "\n") {
 		l = strings.TrimRight(l, "\r")
 		if i == 0 || l == "" || strings.HasPrefix(l, "#") {
+			continue
+		}
+		if strings.HasPrefix(l, "userid ") {
+			// userid <k> <Go-quoted string>
+			rest := strings.TrimSpace(l[len("userid "):])
+			sp := strings.IndexByte(rest, ' ')
+			if sp < 0 {
+				return nil, fmt.Errorf("bad line %q", l)
+			}
+			k, err := strconv.Atoi(rest[:sp])
+			id, err2 := strconv.Unquote(strings.TrimSpace(rest[sp+1:]))
+			if err != nil || err2 != nil || k < 0 || k > 8 {
+				return nil, fmt.Errorf("bad line %q", l)
+			}
+			for len(q.IDs) <= k {
+				q.IDs = append(q.IDs, "")
+			}
+			q.IDs[k] = id
 			continue
 		}
 		f := authSplitArgs(l)
@@ -439,7 +747,10 @@ type authObs struct {
 	Acc     []int  // LOGIN: users whose connector accepts the credentials (from the harness' credential table)
 	Probed  bool   // LOGIN answered OK: the harness issued the identity probe LIST "" "*" on the session
 	Who     []int  // users whose markers the identity probe showed
-	Admin   bool   // not a command: ADMIN remove / add
+	Admin   bool   // not a command: ADMIN remove / add / removefiles / restart
+	AdminK  int    // ADMIN: the user, or for restart the number of observers that logged in again
+	Chg     []int  // users whose observer read another view after this step than before it
+	Leak    [][2]int // (observer, user): the observer's view held a marker of that other user
 	Raw     string
 }
 
@@ -454,6 +765,9 @@ type authRun struct {
 	judgeIn  string
 	setupErr error
 	hang     string // a command got no completion within the client timeout: the run stops there
+	notes    []string // informational: API results, what is on disk
+	causes   []string // disk observations that classify a verdict
+	ownFiles bool     // after the set-up every user had a database file and a store directory of its own id
 }
 
 func authClass(rep Reply) string {
@@ -650,16 +964,32 @@ func authAccepting(names, passes []string, removed []bool, arg string) []int {
 	return out
 }
 
+func authQuoteAll(l []string) []string {
+	out := make([]string, len(l))
+	for i, x := range l {
+		out[i] = strconv.Quote(x)
+	}
+	return out
+}
+
 func (q *authSeq) accepting(arg string) []int { return authAccepting(q.Names, q.Passes, nil, arg) }
 
 func runAuthSeq(q *authSeq, verbose bool) *authRun {
 	run := &authRun{seq: q}
-	a, err := newAuthSys(q.Names, q.Passes, time.Duration(q.JailMS)*time.Millisecond)
+	a, err := newAuthSys(q.Names, q.Passes, q.IDs, time.Duration(q.JailMS)*time.Millisecond)
 	if err != nil {
 		run.setupErr = err
 		return run
 	}
 	defer a.Close()
+	defer func() { run.notes = append(run.notes, a.notes...); run.causes = append(run.causes, a.causes...) }()
+	idOf := func(k int) string { return strconv.Quote(a.users[k].ID) }
+	d, own := a.disk()
+	run.ownFiles = own
+	a.notes = append(a.notes, "on disk after the set-up: "+d)
+	if !own {
+		a.notes = append(a.notes, "after the set-up not every user has a database file <id>.db and a store directory <id> of its own inside the server's directories")
+	}
 	for k := range q.Names {
 		s, err := a.snapshot(k)
 		if err != nil {
@@ -670,22 +1000,46 @@ func runAuthSeq(q *authSeq, verbose bool) *authRun {
 		for _, m := range reAuthMarker.FindAllStringSubmatch(s, -1) {
 			if x, _ := strconv.Atoi(m[1]); x != k {
 				run.before = append(run.before, s)
-				run.panics = append(run.panics, fmt.Sprintf("property identity login-bound-to-another-user: before any step, the session opened with the valid pair of user %d (%s) shows the data of user %d (marker %s); users logged in before it: 0..%d", k, authLoginArg(q.Names[k], q.Passes[k], true), x, m[0], k-1))
+				if strings.Contains(s, authMarker(k)) {
+					run.panics = append(run.panics, fmt.Sprintf("property isolation users-share-data: before any step, the session opened with the valid pair of user %d (user id %s) shows, next to its own data, the data of user %d (user id %s; marker %s)", k, idOf(k), x, idOf(x), m[0]))
+				} else {
+					run.panics = append(run.panics, fmt.Sprintf("property identity login-bound-to-another-user: before any step, the session opened with the valid pair of user %d (%s) shows the data of user %d (marker %s); users logged in before it: 0..%d", k, authLoginArg(q.Names[k], q.Passes[k], true), x, m[0], k-1))
+				}
 				return run
 			}
 		}
 		// the fixture must be what the generator assumes: every stable mailbox, only this user's markers
+		broken := ""
 		for _, mb := range authStable(k) {
 			if !strings.Contains(s, "list "+mb+" ") {
-				run.setupErr = fmt.Errorf("fixture: user %d has no mailbox %s:\n%s", k, mb, s)
-				return run
+				broken = fmt.Sprintf("user %d has no mailbox %s", k, mb)
 			}
 		}
-		if n := strings.Count(s, "subject="+authMarker(k)+"subj"); n != 5 {
-			run.setupErr = fmt.Errorf("fixture: user %d shows %d of its 5 messages:\n%s", k, n, s)
+		if n := strings.Count(s, "subject="+authMarker(k)+"subj"); n != 5 && broken == "" {
+			broken = fmt.Sprintf("user %d shows %d of its 5 messages", k, n)
+		}
+		if broken != "" {
+			if len(q.IDs) > 0 && len(q.Names) > 1 {
+				// the same fixture is complete for server-drawn ids: the chosen ids of the users interfere
+				run.before = append(run.before, s)
+				run.panics = append(run.panics, fmt.Sprintf("property isolation fixture-damaged-at-set-up: %s after all users (ids %s) were loaded", broken, strings.Join(authQuoteAll(q.IDs), " ")))
+				return run
+			}
+			run.setupErr = fmt.Errorf("fixture: %s:\n%s", broken, s)
 			return run
 		}
 		run.before = append(run.before, s)
+	}
+	// observers: logged in before the first step (the login counter is at zero and stays there)
+	for k := range q.Names {
+		if !a.openObserver(k) {
+			run.setupErr = fmt.Errorf("observer of user %d cannot log in", k)
+			return run
+		}
+	}
+	if _, leak := a.observe(); len(leak) > 0 {
+		run.panics = append(run.panics, fmt.Sprintf("property isolation observer-lists-marker-of-another-user before any step: session of user %d (user id %s) lists a marker of user %d (user id %s)", leak[0][0], idOf(leak[0][0]), leak[0][1], idOf(leak[0][1])))
+		return run
 	}
 	conns := map[int]*Client{}
 	defer func() {
@@ -707,12 +1061,36 @@ func runAuthSeq(q *authSeq, verbose bool) *authRun {
 				k, _ = strconv.Atoi(f[0])
 			}
 			var err error
+			o.AdminK = k
 			switch {
+			case st.Ty == "AdminRestart":
+				for _, c := range conns {
+					c.Close()
+				}
+				conns = map[int]*Client{}
+				o.AdminK, err = a.restart()
+				if err == nil && o.AdminK == 0 {
+					err = fmt.Errorf("no user's observer could log in again")
+				}
 			case k < 0 || k >= len(q.Names):
 				err = fmt.Errorf("no such user")
-			case st.Ty == "AdminRemove":
-				if err = a.removeUser(k); err == nil {
+			case st.Ty == "AdminRemove" || st.Ty == "AdminRemoveFiles":
+				type have struct{ db, store bool }
+				before := make([]have, len(a.users))
+				for j := range a.users {
+					before[j].db, before[j].store = a.hasFiles(j)
+				}
+				if err = a.removeUser(k, st.Ty == "AdminRemoveFiles"); err == nil {
 					removed[k] = true
+				}
+				for j := range a.users {
+					db, store := a.hasFiles(j)
+					if j != k && !a.users[j].Removed && before[j].db && !db {
+						a.causes = append(a.causes, fmt.Sprintf("cause=%s-removed-database-file-of-another-user step=%d: %s.db of user %d is gone from the database directory", strings.ToLower(st.Ty[5:]), i, strconv.Quote(a.users[j].ID), j))
+					}
+					if j != k && !a.users[j].Removed && before[j].store && !store {
+						a.causes = append(a.causes, fmt.Sprintf("cause=%s-removed-store-directory-of-another-user step=%d: directory %s of user %d is gone from the store directory", strings.ToLower(st.Ty[5:]), i, strconv.Quote(a.users[j].ID), j))
+					}
 				}
 			case st.Ty == "AdminAdd" && len(f) == 2:
 				if err = a.addUser(k, f[1]); err == nil {
@@ -727,9 +1105,13 @@ func runAuthSeq(q *authSeq, verbose bool) *authRun {
 				o.Raw = "<" + err.Error() + ">"
 				run.panics = append(run.panics, fmt.Sprintf("admin step=%d %s failed: %v", i, st.String(), err))
 			}
+			o.Chg, o.Leak = a.observe()
+			if d, _ := a.disk(); true {
+				a.notes = append(a.notes, fmt.Sprintf("on disk after step %d (%s): %s", i, st.String(), d))
+			}
 			run.obs = append(run.obs, o)
 			if verbose {
-				fmt.Fprintf(os.Stderr, "  %-60s => %s\n", st.String(), o.Raw)
+				fmt.Fprintf(os.Stderr, "  %-60s => %s views-changed-of=%v observer-sees-foreign-marker=%v\n", st.String(), o.Raw, o.Chg, o.Leak)
 			}
 			continue
 		}
@@ -767,9 +1149,19 @@ func runAuthSeq(q *authSeq, verbose bool) *authRun {
 				o.Who = append(o.Who, 9) // not a user: the probe itself was refused
 			}
 		}
+		timedOut := false
+		if ne, ok := rep.Err.(net.Error); ok && ne.Timeout() && rep.Tagged == "" {
+			timedOut = true
+		}
+		if !timedOut {
+			o.Chg, o.Leak = a.observe()
+		}
 		run.obs = append(run.obs, o)
 		if verbose {
 			fmt.Fprintf(os.Stderr, "  %-60s => %-4s seen=%v %dms %q", st.String(), o.Status, o.Seen, o.Recv-o.Sent, o.Raw)
+			if len(o.Chg) > 0 || len(o.Leak) > 0 {
+				fmt.Fprintf(os.Stderr, " views-changed-of=%v observer-sees-foreign-marker=%v", o.Chg, o.Leak)
+			}
 			if o.Probed {
 				fmt.Fprintf(os.Stderr, " accepted-by=%v session-lists-mailboxes-of=%v", o.Acc, o.Who)
 			}
@@ -830,14 +1222,28 @@ func digits(xs []int) string {
 	return b.String()
 }
 
-// judgeLine: `judge-c18-wire <jail ms> <nusers> <events>`; event = conn,type,accepting,status,seen,sent,recv,flags,probe
-// (probe: `-` none, `p<users>` = the identity probe after an accepted LOGIN listed these users' mailboxes); `A,<what>` = ADMIN step
+// leakPairs: `-` or `<observer><user>` pairs joined by `.`
+func leakPairs(l [][2]int) string {
+	if len(l) == 0 {
+		return "-"
+	}
+	var out []string
+	for _, p := range l {
+		out = append(out, fmt.Sprintf("%d%d", p[0], p[1]))
+	}
+	return strings.Join(out, ".")
+}
+
+// judgeLine: `judge-c18-wire <jail ms> <nusers> <events>`; event = conn,type,accepting,status,seen,sent,recv,flags,probe,changed,leak
+// (probe: `-` none, `p<users>` = the identity probe after an accepted LOGIN listed these users' mailboxes; changed = users whose
+// observer read another view after the step; leak = <observer><user> pairs, the observer listed a marker of that other user);
+// `A,<what>,<user | restart: observers logged in again>,<changed>,<leak>,<ms>` = ADMIN step
 func (r *authRun) judgeLine() string {
 	var ev []string
 	for i, st := range r.seq.Steps {
 		o := r.obs[i]
 		if o.Admin {
-			ev = append(ev, "A,"+st.Ty)
+			ev = append(ev, fmt.Sprintf("A,%s,%d,%s,%s,%d", st.Ty, o.AdminK, digits(o.Chg), leakPairs(o.Leak), o.Sent))
 			continue
 		}
 		fl := ""
@@ -857,7 +1263,7 @@ func (r *authRun) judgeLine() string {
 		if o.Probed {
 			who = "p" + strings.TrimPrefix(digits(o.Who), "-")
 		}
-		ev = append(ev, fmt.Sprintf("%d,%s,%s,%s,%s,%d,%d,%s,%s", st.Conn, st.Ty, digits(o.Acc), o.Status, digits(o.Seen), o.Sent, o.Recv, fl, who))
+		ev = append(ev, fmt.Sprintf("%d,%s,%s,%s,%s,%d,%d,%s,%s,%s,%s", st.Conn, st.Ty, digits(o.Acc), o.Status, digits(o.Seen), o.Sent, o.Recv, fl, who, digits(o.Chg), leakPairs(o.Leak)))
 	}
 	ev = append(ev, "E,"+digits(r.changed))
 	return fmt.Sprintf("judge-c18-wire %d %d %s", r.seq.JailMS, len(r.seq.Names), strings.Join(ev, ";"))
@@ -875,6 +1281,7 @@ var authAllTypes = []string{"Append", "Capability", "Check", "Close", "Copy", "C
 var authLabels = []string{"N0", "NF", "A", "S", "AC", "X"}
 
 type authGen struct {
+	hostile bool // ids that are not one directory entry / glob patterns are generated too
 	r       *Rng
 	deck    map[string]int // label/type -> times generated
 	stat    map[string]int // what was generated (credential kinds, connections)
@@ -1316,6 +1723,246 @@ func (g *authGen) genUsers(q *authSeq, nu int) {
 	}
 }
 
+// ---- user ids ------------------------------------------------------------------------------
+
+// characters with a meaning in a URL, an SQLite URI filename / go-sqlite3 DSN (`file:<path>?cache=shared&_fk=1...`), a
+// path or a shell: a user id is handed to all of these.  The first group is cycled through first.
+var authIDMetas = []string{"?", "#", "%", "&", "=", ";", "+", " ", ":", "@", "..", ".",
+	"~", "!", "$", "'", ",", "(", ")", "|", "<", ">", "^", "`", "{", "}", "\"", "\t", "\n", "%00", "%2F", "?mode=memory&", "-", "_"}
+
+// ids that are patterns for filepath.Glob / filepath.Match next to an id they match (removing the files of the one must
+// leave the other's alone)
+var authIDPatterns = [][]string{
+	{"ab", "a\\b"}, {"x", "[x]"}, {"xy", "x*"}, {"xy", "x?"}, {"x-y", "x[!a]y"}, {"abc", "a?c"}, {"ab", "*"}, {"q", "[a-z]"},
+}
+
+// ids that are not one new directory entry: gluon hands ids to filepath.Join as they are and documents no validation; the
+// embedding application chooses them (assumption of the check: single clean path elements).  Only with -hostile-ids.
+var authIDHostile = [][]string{
+	{"x", "./x"}, {"x", "y/../x"}, {"x", "x/"}, {"x", "x/."}, {"x", "."}, {"x", ".."}, {"x", "../x"},
+}
+
+func authPct(s string, lower bool) string {
+	var b strings.Builder
+	for _, c := range []byte(s) {
+		if lower {
+			fmt.Fprintf(&b, "%%%02x", c)
+		} else {
+			fmt.Fprintf(&b, "%%%02X", c)
+		}
+	}
+	return b.String()
+}
+
+// idsMeta: ids that are equal up to a metacharacter; with three users the third is what a parser that stops at the
+// character would keep (the stem alone, or the stem and the character)
+func authIDsMeta(stem, ch string, nu int, variant int) []string {
+	tails := []string{"account=alice", "account=bob", "zed"}
+	ids := make([]string, nu)
+	for k := 0; k < nu; k++ {
+		ids[k] = stem + ch + tails[k]
+	}
+	switch variant % 4 {
+	case 1:
+		ids[nu-1] = stem
+	case 2:
+		ids[nu-1] = stem + ch
+	case 3:
+		ids[0] = stem + ch + ch + tails[0]
+	}
+	return ids
+}
+
+// genUserIDs: the ids the application hands to Server.LoadUser (q.IDs stays nil for server-drawn ids).
+func (g *authGen) genUserIDs(q *authSeq, nu int, hostile bool) {
+	r := g.r
+	schemes := []string{"server", "server", "meta", "meta", "meta", "meta", "prefix", "prefix", "prefix", "case", "case", "urlenc", "urlenc", "urlenc", "long", "long", "dots", "utf8", "suffix", "pattern", "pattern"}
+	if hostile {
+		schemes = append(schemes, "hostile", "hostile", "hostile", "hostile")
+	}
+	scheme := Pick(r, schemes)
+	g.stat["gen.userids."+scheme]++
+	stem := Pick(r, []string{"imap", "u", "usr-" + g.letters(3), g.letters(6), "A1"})
+	ids := make([]string, nu)
+	switch scheme {
+	case "server":
+		return
+	case "meta":
+		// the least used metacharacter first (every one of them comes up in a run of a hundred sequences)
+		best, bestN := []string{}, 1<<30
+		for _, m := range authIDMetas {
+			if n := g.deck["idmeta/"+m]; n < bestN {
+				best, bestN = []string{m}, n
+			} else if n == bestN {
+				best = append(best, m)
+			}
+		}
+		ch := best[0]
+		g.deck["idmeta/"+ch]++
+		ids = authIDsMeta(stem, ch, nu, r.Intn(4))
+	case "prefix":
+		// every id is a prefix of the next: digits appended (user1 / user10 / user100), or letters
+		ids[0] = stem + Pick(r, []string{"1", "7", "", "x"})
+		if ids[0] == "" {
+			ids[0] = "u"
+		}
+		for k := 1; k < nu; k++ {
+			ids[k] = ids[k-1] + Pick(r, []string{"0", "1", "a", "-b", "_", " ", ".", "0000"})
+		}
+	case "suffix":
+		// ids that look like the names gluon itself derives from an id: <id>.db, <id>.db-wal, <id>.db-shm, deferred_delete
+		all := []string{stem, stem + ".db", stem + ".db-wal", stem + ".db-shm", "deferred_delete", stem + ".db.db"}
+		for k := 0; k < nu; k++ {
+			i := r.Intn(len(all))
+			ids[k] = all[i]
+			all = append(all[:i], all[i+1:]...)
+		}
+	case "case":
+		n := stem + g.letters(3)
+		vs := []string{strings.ToLower(n), strings.ToUpper(n), strings.ToUpper(n[:1]) + strings.ToLower(n[1:])}
+		copy(ids, vs)
+	case "urlenc":
+		// an id, its percent-encoding, the percent-encoding of that; `+` / space / %20
+		ch := Pick(r, []string{"?", "#", "%", "/", " ", "&", "+", ";"})
+		tail := g.letters(2)
+		var vs []string
+		switch {
+		case ch == "/":
+			vs = []string{stem + "%2F" + tail, stem + "%2f" + tail, stem + "%252F" + tail}
+		case ch == " " || ch == "+":
+			vs = []string{stem + " " + tail, stem + "+" + tail, stem + "%20" + tail, stem + "%2B" + tail}
+		default:
+			vs = []string{stem + ch + tail, stem + authPct(ch, false) + tail, stem + "%25" + authPct(ch, false)[1:] + tail}
+			if lo := authPct(ch, true); lo != authPct(ch, false) {
+				vs = append(vs, stem+lo+tail)
+			}
+		}
+		for k := 0; k < nu; k++ {
+			i := r.Intn(len(vs))
+			ids[k] = vs[i]
+			vs = append(vs[:i], vs[i+1:]...)
+		}
+	case "long":
+		// long ids (file name limit 255 bytes for <id>.db-shm) that differ in the last byte, in the middle, or in length
+		n := Pick(r, []int{120, 200, 240, 244}) // (<id>.db-journal is the longest name derived from an id)
+		base := strings.Repeat(Pick(r, []string{"L", "ab", "0123456789", "a?", "%41"}), n)[:n]
+		ids[0] = base
+		ids[1] = base[:n-1] + "~"
+		if nu > 2 {
+			ids[2] = base[:n/2] + "~" + base[n/2+1:]
+			if r.Bool() {
+				ids[2] = base[:n-1]
+			}
+		}
+	case "dots":
+		vs := []string{"." + stem, ".." + stem, stem + ".", stem + "..", "...", stem, ".db", "-" + stem, "~" + stem, " " + stem, stem + " "}
+		for k := 0; k < nu; k++ {
+			i := r.Intn(len(vs))
+			ids[k] = vs[i]
+			vs = append(vs[:i], vs[i+1:]...)
+		}
+	case "utf8":
+		vs := []string{"\u00e9" + stem, "e\u0301" + stem, "\u00c9" + stem, "\u00fc", "\u4e2d\u6587", "\U0001F600", "\xff\xfe" + stem}
+		for k := 0; k < nu; k++ {
+			i := r.Intn(len(vs))
+			ids[k] = vs[i]
+			vs = append(vs[:i], vs[i+1:]...)
+		}
+	case "pattern":
+		h := Pick(r, authIDPatterns)
+		ids[0], ids[1] = h[0], h[1]
+		if nu > 2 {
+			ids[2] = h[0] + h[1]
+		}
+	case "hostile":
+		h := Pick(r, authIDHostile)
+		ids[0], ids[1] = h[0], h[1]
+		if nu > 2 {
+			ids[2] = "zed"
+		}
+	}
+	// which index gets which id must not matter
+	for i := nu - 1; i > 0; i-- {
+		j := r.Intn(i + 1)
+		ids[i], ids[j] = ids[j], ids[i]
+	}
+	for i := range ids {
+		for j := 0; j < i; j++ {
+			if ids[i] == ids[j] || ids[i] == "" {
+				panic(fmt.Sprintf("c18auth generator: scheme %s gives the ids %q", scheme, ids))
+			}
+		}
+	}
+	q.IDs = ids
+}
+
+// authDirectedIDSeqs: short sequences, one per metacharacter and id relation, run before the generated ones: two or three
+// users whose ids are related, each changes its own mailboxes and tries the others' by name; then a restart.
+func authDirectedIDSeqs(jailMS int, hostile bool) ([]*authSeq, []string) {
+	var seqs []*authSeq
+	var origin []string
+	mk := func(what string, ids []string, files bool) {
+		nu := len(ids)
+		q := &authSeq{JailMS: jailMS, IDs: ids}
+		for k := 0; k < nu; k++ {
+			q.Names = append(q.Names, fmt.Sprintf("usr%d", k))
+			q.Passes = append(q.Passes, fmt.Sprintf("pw%d%04x", k, 4660+k))
+		}
+		add := func(c int, ty, arg string) { q.Steps = append(q.Steps, authStep{Conn: c, Ty: ty, Arg: arg}) }
+		for k := 0; k < nu; k++ {
+			o := (k + 1) % nu
+			add(k, "Login", authLoginArg(q.Names[k], q.Passes[k], false))
+			add(k, "List", `LIST "" "*"`)
+			add(k, "Create", fmt.Sprintf("CREATE %stmp%d", authMarker(k), k+1))
+			add(k, "Append", fmt.Sprintf("%sbox %sapp%d", authMarker(k), authMarker(k), k+1))
+			add(k, "Status", fmt.Sprintf("STATUS %sbox (MESSAGES UIDNEXT UNSEEN)", authMarker(o)))
+			add(k, "Delete", fmt.Sprintf("DELETE %sarc", authMarker(o)))
+			add(k, "Append", fmt.Sprintf("%sbox %sapp%d", authMarker(o), authMarker(k), k+10))
+			add(k, "Delete", fmt.Sprintf("DELETE %sarc", authMarker(k)))
+			add(k, "Logout", "LOGOUT")
+		}
+		if files {
+			// the first user goes away with its files and comes back: the others keep everything - also over a restart
+			add(-1, "AdminRemoveFiles", "0")
+			add(nu, "Login", authLoginArg(q.Names[0], q.Passes[0], false))
+			add(-1, "AdminRestart", "")
+			add(-1, "AdminAdd", "0 "+q.Passes[0])
+			add(nu+1, "Login", authLoginArg(q.Names[0], q.Passes[0], false))
+			add(nu+1, "List", `LIST "" "*"`)
+			add(nu+1, "Logout", "LOGOUT")
+		}
+		add(-1, "AdminRestart", "")
+		for k := 0; k < nu; k++ {
+			add(nu+2+k, "Login", authLoginArg(q.Names[k], q.Passes[k], false))
+			add(nu+2+k, "List", `LIST "" "*"`)
+		}
+		seqs = append(seqs, q)
+		origin = append(origin, "directed ids: "+what)
+	}
+	for i, ch := range authIDMetas {
+		mk(fmt.Sprintf("equal up to %q", ch), authIDsMeta("imap", ch, 2+i%2, i), false)
+	}
+	mk("percent-encodings of one another", []string{"a?b", "a%3Fb", "a%253Fb"}, false)
+	mk("percent-encodings of one another", []string{"a b", "a+b", "a%20b"}, false)
+	mk("letter case", []string{"Usr", "usr", "USR"}, false)
+	mk("prefix", []string{"user1", "user10", "user100"}, false)
+	mk("prefix, the shorter one removed with its files", []string{"user1", "user10"}, true)
+	mk("metacharacter, one removed with its files", []string{"imap?a", "imap?b", "imap"}, true)
+	mk("names gluon derives from an id", []string{"u", "u.db", "u.db-wal"}, true)
+	mk("long", []string{strings.Repeat("L", 240), strings.Repeat("L", 239) + "~"}, false)
+	for _, h := range authIDPatterns {
+		mk(fmt.Sprintf("pattern %q next to %q, the pattern removed with its files", h[1], h[0]), []string{h[1], h[0]}, true)
+	}
+	mk("pattern ids only", []string{"*", "?", "[a-z]"}, true)
+	if hostile {
+		for _, h := range authIDHostile {
+			mk(fmt.Sprintf("hostile %q %q", h[0], h[1]), []string{h[0], h[1]}, false)
+			mk(fmt.Sprintf("hostile %q %q, the second removed with its files", h[0], h[1]), []string{h[1], h[0]}, true)
+		}
+	}
+	return seqs, origin
+}
+
 // remembered-login probe: user o logs in on one connection (and, sometimes, out again); then a *fresh* connection
 // presents pairs derived from o's valid pair - none of which any connector accepts - each followed by the full
 // listing (refused: not authenticated), and at the end sometimes the right pair of another user (whose session must
@@ -1354,7 +2001,13 @@ func (g *authGen) probePlan(q *authSeq, o int, others []int, conn int, admin boo
 		return p
 	}
 	g.stat["gen.sequences.with-remove-and-add-user"]++
-	p.steps = append(p.steps, authStep{Conn: -1, Ty: "AdminRemove", Arg: strconv.Itoa(o)})
+	rm := "AdminRemove"
+	if r.Bool() {
+		// with its files: the database and the store of o are deleted - everybody else's stay
+		rm = "AdminRemoveFiles"
+		g.stat["gen.sequences.with-remove-user-and-files"]++
+	}
+	p.steps = append(p.steps, authStep{Conn: -1, Ty: rm, Arg: strconv.Itoa(o)})
 	add(conn+2, "Login", g.credsFrom(q, o, oth, "right", "probe-removed")) // nobody's pair now
 	list(conn + 2)
 	derived(conn+2, r.Range(0, 1), "probe-removed")
@@ -1381,6 +2034,7 @@ func (g *authGen) genAuthSeq(r *Rng, jailMS int) *authSeq {
 	nu := r.Range(2, 3)
 	q := &authSeq{JailMS: jailMS}
 	g.genUsers(q, nu)
+	g.genUserIDs(q, nu, g.hostile)
 	// the victim never gets an authenticated session in this sequence: its view must stay identical
 	victim := r.Intn(nu)
 	unauthOnly := r.Chance(1, 5) // nobody logs in successfully: every view must stay identical
@@ -1513,6 +2167,38 @@ func (g *authGen) genAuthSeq(r *Rng, jailMS int) *authSeq {
 			idx[i]++
 		}
 	}
+	// a restart at the end (always after a user was removed together with its files): everybody's data is still there,
+	// and a session opened afterwards lists its own user's mailboxes
+	withFiles := false
+	for _, st := range q.Steps {
+		if st.Ty == "AdminRemoveFiles" {
+			withFiles = true
+		}
+	}
+	if withFiles || r.Chance(1, 4) {
+		g.stat["gen.sequences.with-restart"]++
+		q.Steps = append(q.Steps, authStep{Conn: -1, Ty: "AdminRestart"})
+		for k := 0; k < nu; k++ {
+			if unauthOnly || k == victim || r.Chance(1, 3) {
+				continue
+			}
+			c := nc + 10 + k
+			// (a user that was removed and added again with another password by the probe: its ADMIN add step tells which)
+			pass := q.Passes[k]
+			for _, st := range q.Steps {
+				if st.Ty == "AdminAdd" {
+					if f := authSplitArgs(st.Arg); len(f) == 2 && f[0] == strconv.Itoa(k) {
+						pass = f[1]
+					}
+				}
+			}
+			q.Steps = append(q.Steps, authStep{Conn: c, Ty: "Login", Arg: authLoginArg(q.Names[k], pass, false)},
+				authStep{Conn: c, Ty: "List", Arg: `LIST "" "*"`})
+			if r.Bool() {
+				q.Steps = append(q.Steps, authStep{Conn: c, Ty: "Status", Arg: "STATUS " + Pick(r, authStable((k+1)%nu)[1:]) + " (MESSAGES)"})
+			}
+		}
+	}
 	return q
 }
 
@@ -1530,6 +2216,8 @@ func runAuthOracle(args []string) int {
 	jail := fs.Int("jail", 300, "login jail time in ms")
 	workers := fs.Int("workers", 8, "")
 	verbose := fs.Bool("v", false, "")
+	hostile := fs.Bool("hostile-ids", false, "also user ids that are not one directory entry (., .., with /) or glob patterns")
+	directed := fs.Bool("directed-ids", true, "run the directed user-id sequences first")
 	_ = fs.Parse(args)
 	res := &OracleResult{Stats: map[string]int{}, Samples: []any{}, Violations: []OracleViol{}}
 
@@ -1580,8 +2268,17 @@ func runAuthOracle(args []string) int {
 					if r.obs[i].Probed {
 						text += fmt.Sprintf(" pair-accepted-by-connector-of=%s session-lists-mailboxes-of=%s", digits(r.obs[i].Acc), digits(r.obs[i].Who))
 					}
+					if len(r.obs[i].Chg) > 0 || len(r.obs[i].Leak) > 0 {
+						text += fmt.Sprintf(" observers: views-changed-of=%s observer-user-pairs-with-a-foreign-marker=%s", digits(r.obs[i].Chg), leakPairs(r.obs[i].Leak))
+					}
 					text += "\n"
 				}
+			}
+			for _, n := range r.causes {
+				text += "# " + n + "\n"
+			}
+			for _, n := range r.notes {
+				text += "# note (informational): " + strings.ReplaceAll(n, "\n", " | ") + "\n"
 			}
 			for _, k := range r.changed {
 				text += fmt.Sprintf("# view of user %d changed:\n#   before: %s\n#   after:  %s\n", k, strings.ReplaceAll(r.before[k], "\n", " | "), strings.ReplaceAll(r.after[k], "\n", " | "))
@@ -1599,6 +2296,19 @@ func runAuthOracle(args []string) int {
 		res.Stats["sequences"]++
 		res.Stats["steps"] += len(r.seq.Steps)
 		res.Stats[fmt.Sprintf("users.%d", len(r.seq.Names))]++
+		if len(r.seq.IDs) > 0 {
+			res.Stats["userids.chosen-by-the-application"]++
+		} else {
+			res.Stats["userids.drawn-by-the-server"]++
+		}
+		if r.ownFiles {
+			res.Stats["disk.sequences-every-user-has-files-of-its-own-id"]++
+		} else {
+			res.Stats["disk.sequences-some-user-without-files-of-its-own-id"]++
+		}
+		for _, o := range r.obs {
+			res.Stats["observers.views-read-changed"] += len(o.Chg)
+		}
 		if len(r.changed) == 0 {
 			res.Stats["views.all-unchanged"]++
 		}
@@ -1656,7 +2366,7 @@ func runAuthOracle(args []string) int {
 
 	// offline generation, in order (the coverage deck is shared), then parallel execution
 	rng := NewRng(*seed)
-	g := &authGen{deck: map[string]int{}, stat: map[string]int{}}
+	g := &authGen{deck: map[string]int{}, stat: map[string]int{}, hostile: *hostile}
 	// directed scenarios and past failures first: $VERIF_CORPUS/*.txt in the replay-file format
 	var seqs []*authSeq
 	var origin []string
@@ -1677,6 +2387,12 @@ func runAuthOracle(args []string) int {
 			seqs = append(seqs, q)
 			origin = append(origin, "corpus "+filepath.Base(f))
 		}
+	}
+	if *directed {
+		ds, do := authDirectedIDSeqs(*jail, *hostile)
+		seqs = append(seqs, ds...)
+		origin = append(origin, do...)
+		res.Stats["directed-id-sequences"] = len(ds)
 	}
 	for i := 0; i < *n; i++ {
 		seqs = append(seqs, g.genAuthSeq(rng.Fork(), *jail))
@@ -1724,6 +2440,7 @@ func runAuthOracle(args []string) int {
 			continue
 		}
 		res.Stats["sequences.failed"]++
+		res.Stats["sequences.failed."+strings.Join(strings.Fields(verdictKind(v)), "_")]++
 		if reported >= 3 {
 			continue
 		}
@@ -1732,7 +2449,7 @@ func runAuthOracle(args []string) int {
 		q := seqs[i]
 		kind := verdictKind(v)
 		fails := func(steps []authStep) (*authRun, bool) {
-			q2 := &authSeq{Names: q.Names, Passes: q.Passes, JailMS: q.JailMS, Steps: steps}
+			q2 := q.withSteps(steps)
 			r2 := runAuthSeq(q2, false)
 			if err := judgeAll([]*authRun{r2}); err != nil {
 				return nil, false
@@ -1756,7 +2473,7 @@ func runAuthOracle(args []string) int {
 				chunk /= 2
 			}
 		}
-		qs := &authSeq{Names: q.Names, Passes: q.Passes, JailMS: q.JailMS, Steps: cur}
+		qs := q.withSteps(cur)
 		report(curRun, qs, verdict(curRun), fmt.Sprintf("minimised from %d steps (%s)", len(q.Steps), origin[i]))
 	}
 	// coverage of the (state, command) matrix, by the judge's own labels
